@@ -40,6 +40,9 @@ def judge(ctx, r):
     for i, s in enumerate(r.steps):
         rep = C.replay_of(r, i)
         a = C.absfile(s["after"])
+        if a is None or C.absfile(s["before"]) is None:
+            ctx.fail(f"{r.desc} step {i} {s['op']}: the file can no longer be parsed", rep, ident="file unreadable after " + s["op"][0])
+            return
         table = [None] * a["n"]
         for e in a["live"]:
             table[e[0]] = e[1]
